@@ -84,7 +84,7 @@ static int dupsort_bytes(void *clos, const uint8_t *key, size_t lk, const uint8_
 }
 
 /* ------------------------------------------------------------------ user-defined sources */
-typedef struct { model_t m; uint64_t iters_open, nexts; } usrc_t;
+typedef struct { model_t m; uint64_t iters_open, nexts; int seek_refuses; /* seek reports failure when nothing lies at or after the target (as the library's own fileset source does) */ } usrc_t;
 typedef struct { usrc_t *s; size_t pos; ibound_t bd; uint8_t *kbuf, *vbuf; } usrc_iter_t;
 
 static mtbl_res usrc_next(void *v, const uint8_t **k, size_t *lk, const uint8_t **val, size_t *lv)
@@ -108,6 +108,7 @@ static mtbl_res usrc_seek(void *v, const uint8_t *k, size_t lk)
 	/* a bounded iterator never goes below its range start */
 	size_t st = bound_start(&it->s->m, &it->bd);
 	if (it->pos < st) it->pos = st;
+	if (it->s->seek_refuses && (it->pos >= it->s->m.n || !inbound(&it->bd, &it->s->m.e[it->pos]))) { STAT("usrc.seek_refused"); return mtbl_res_failure; }
 	return mtbl_res_success;
 }
 static void usrc_iter_free(void *v)
@@ -200,6 +201,7 @@ static void family_gen(rng_t *r, family_t *f, const char *workdir, long c, int a
 		if (sort_dups_by_value && f->src[s].n > 1) qsort(f->src[s].e, f->src[s].n, sizeof(ent_t), flat_cmp);
 		if (f->is_user[s]) {
 			f->usrc[s].m = f->src[s];      /* shares storage */
+			f->usrc[s].seek_refuses = rndn(r, 3) == 0;
 			f->usource[s] = mtbl_source_init(usrc_iter, usrc_get, usrc_get_prefix, usrc_get_range, NULL, &f->usrc[s]);
 		} else {
 			wcfg_t cfg; gen_wcfg(r, &cfg); cfg.pool = -1; cfg.block_size = 1024; cfg.prefix_len = 0; cfg.use_fd = 0;
